@@ -49,12 +49,26 @@ where
 {
     let path = path.as_ref();
 
+    // Missing ancestors that `create_dir_all` is about to create (they would otherwise
+    // keep the process default mode, e.g. 0755)
+    #[cfg(unix)]
+    let created_parents: Vec<&Path> = path
+        .ancestors()
+        .skip(1)
+        .take_while(|dir| !dir.as_os_str().is_empty() && !dir.exists())
+        .collect();
+
     // Create the directory (and parents if needed)
     std::fs::create_dir_all(path)?;
 
     // Apply platform-specific permissions
     #[cfg(unix)]
-    set_unix_directory_permissions(path)?;
+    {
+        for dir in created_parents {
+            set_unix_directory_permissions(dir)?;
+        }
+        set_unix_directory_permissions(path)?;
+    }
 
     Ok(())
 }
